@@ -321,6 +321,33 @@ fn handle(line: &str) -> String {
                 }
             }
         }
+        "build_level" => {
+            // <Gzip|Xz|Bzip2|Zstd|None> <level>: build an empty package with that compression
+            let lv: i64 = p[2].parse().unwrap_or(0);
+            let c = match p[1] {
+                "Gzip" => rpm::CompressionWithLevel::Gzip(lv as u32),
+                "Xz" => rpm::CompressionWithLevel::Xz(lv as u32),
+                "Bzip2" => rpm::CompressionWithLevel::Bzip2(lv as u32),
+                "Zstd" => rpm::CompressionWithLevel::Zstd(lv as u32 as i32),
+                _ => rpm::CompressionWithLevel::None,
+            };
+            match std::panic::catch_unwind(|| rpm::PackageBuilder::new("a", "1", "MIT", "x86_64", "s").compression(c).build()) {
+                Err(_) => "panic".to_string(),
+                Ok(Ok(_)) => "ok".to_string(),
+                Ok(Err(e)) => format!("err {}", format!("{:?}", e).split(|c: char| !c.is_alphanumeric()).next().unwrap_or("")),
+            }
+        }
+        "enc_new" => {
+            // <flate2|liblzma|bzip2> <level>: does the encoder constructor the crate calls panic on this level?
+            let lv: u32 = p[2].parse::<u64>().unwrap_or(0) as u32;
+            let r = match p[1] {
+                "flate2" => std::panic::catch_unwind(|| drop(flate2::write::GzEncoder::new(Vec::new(), flate2::Compression::new(lv)))),
+                "liblzma" => std::panic::catch_unwind(|| drop(liblzma::write::XzEncoder::new(Vec::new(), lv))),
+                "bzip2" => std::panic::catch_unwind(|| drop(bzip2::write::BzEncoder::new(Vec::new(), bzip2::Compression::new(lv)))),
+                _ => Ok(()),
+            };
+            if r.is_err() { "panic".to_string() } else { "ok".to_string() }
+        }
         "file_entries" => {
             let b = unhex_bytes(p[1]);
             match rpm::PackageMetadata::parse(&mut &b[..]) {
